@@ -327,7 +327,7 @@ Ltac brk H :=
   | context [match ?x with Some _ => _ | None => _ end] => destruct x eqn:?; try discriminate H
   | context [match ?x with Ok _ _ => _ | Err => _ | Panic => _ end] => destruct x eqn:?; try discriminate H
   | context [match ?x with CMember => _ | CToken _ => _ end] => destruct x eqn:?; try discriminate H
-  | context [match ?x with CText => _ | CParam _ => _ | CCommitteeChange => _ end] => destruct x eqn:?; try discriminate H
+  | context [match ?x with CText => _ | CParam _ => _ | CUpgrade _ => _ | CCommitteeChange => _ end] => destruct x eqn:?; try discriminate H
   | context [let '(_, _) := ?x in _] => destruct x eqn:?
   end.
 
@@ -336,10 +336,11 @@ Definition is_msg (o : op) : Prop :=
 
 (* queries, submissions and votes change neither parameters, nor committees, nor balances, nor time *)
 Lemma msg_no_effect sls s o s' x : is_msg o -> step sls s o = Ok s' x ->
-  params s' = params s /\ coms s' = coms s /\ bals s' = bals s /\ supply s' = supply s /\ now s' = now s.
+  params s' = params s /\ coms s' = coms s /\ bals s' = bals s /\ supply s' = supply s /\ now s' = now s /\
+  height s' = height s /\ plan s' = plan s.
 Proof.
   intros Hm H. destruct o; cbn in Hm; try contradiction; cbn in H; brk H;
-    inversion H; subst; cbn; auto.
+    inversion H; subst; cbn; auto 10.
 Qed.
 
 (* a content without a route on the committee router can never be submitted *)
@@ -349,20 +350,27 @@ Proof.
   intros s' x H. cbn in H. brk H.
 Qed.
 
+(* the dry run and the real run are the same computation on the same state *)
+Lemma validated_handler_ok sls ht ps c : validate_pub sls ht ps c = true ->
+  exists ps', run_handler sls ht ps c = Ok ps' tt.
+Proof.
+  destruct c; cbn; [eauto| | |discriminate].
+  - intros H. apply Bool.andb_true_iff in H. destruct H as [_ H].
+    destruct (run_changes sls ps changes) as [ps' []| |]; try discriminate. eauto.
+  - intros H. apply Bool.negb_true_iff in H. rewrite H. eauto.
+Qed.
+
 (* a proposal is stored only if its handler succeeds on the current state *)
 Lemma submit_handler_ok sls s proposer cid c s' x :
   step sls s (OSubmit proposer cid c) = Ok s' x ->
-  exists ps, run_handler sls (params s) c = Ok ps tt /\
+  exists ps, run_handler sls (height s) (params s) c = Ok ps tt /\
   exists cm, find_com s cid = Some cm /\ mem_nat proposer (c_members cm) = true /\
              has_perms (c_perms cm) (params s) c = Some true.
 Proof.
   intros H. cbn in H. brk H.
-  match goal with E : negb (validate_pub _ _ _) = false |- _ => apply Bool.negb_false_iff in E; rename E into Hv end.
+  match goal with E : negb (validate_pub _ _ _ _) = false |- _ => apply Bool.negb_false_iff in E; rename E into Hv end.
   match goal with E : negb (mem_nat _ _) = false |- _ => apply Bool.negb_false_iff in E; rename E into Hm end.
-  assert (exists ps, run_handler sls (params s) c = Ok ps tt) as (ps & Hps).
-  { destruct c; cbn in Hv |- *; [eauto| |discriminate].
-    apply Bool.andb_true_iff in Hv. destruct Hv as [_ Hv].
-    destruct (run_changes sls (params s) changes) as [ps []| |]; try discriminate. eauto. }
+  destruct (validated_handler_ok _ _ _ _ Hv) as (ps & Hps).
   exists ps. split; [exact Hps|]. eauto.
 Qed.
 
@@ -371,22 +379,15 @@ Qed.
 Lemma attempt_enact_spec sls s p s0 oc : attempt_enact sls s p = Ok s0 oc ->
   (oc = Passed /\
    exists c ps, find_com s (p_com p) = Some c /\ has_perms (c_perms c) (params s) (p_content p) = Some true /\
-                validate_pub sls (params s) (p_content p) = true /\
-                run_handler sls (params s) (p_content p) = Ok ps tt /\ s0 = set_params s ps)
+                validate_pub sls (height s) (params s) (p_content p) = true /\
+                run_handler sls (height s) (params s) (p_content p) = Ok ps tt /\
+                s0 = enact_state s (p_content p) ps)
   \/ (oc = Invalid /\ s0 = s).
 Proof.
   unfold attempt_enact. intros H. brk H; inversion H; subst; auto.
   left. split; [reflexivity|].
   match goal with E : negb _ = false |- _ => apply Bool.negb_false_iff in E end.
   match goal with o : unit |- _ => destruct o end. eauto 10.
-Qed.
-
-(* the dry run and the real run are the same computation on the same state *)
-Lemma validated_handler_ok sls ps c : validate_pub sls ps c = true ->
-  exists ps', run_handler sls ps c = Ok ps' tt.
-Proof.
-  destruct c; cbn; [eauto| |discriminate]. intros H. apply Bool.andb_true_iff in H. destruct H as [_ H].
-  destruct (run_changes sls ps changes) as [ps' []| |]; try discriminate. eauto.
 Qed.
 
 (* sub-parameter rules only name registered, set parameters (stored values are
@@ -510,10 +511,11 @@ Proof.
     intros Hok. apply Hd. apply set_nth_Forall; [eapply apply_slot_doc; eauto|exact Hok].
 Qed.
 
-Lemma run_handler_docs sls ps c ps' u : run_handler sls ps c = Ok ps' u ->
+Lemma run_handler_docs sls ht ps c ps' u : run_handler sls ht ps c = Ok ps' u ->
   List.length ps' = List.length ps /\ (docs_ok ps -> docs_ok ps').
 Proof.
-  destruct c; cbn; intros H; [inversion H; subst; auto|eapply run_changes_docs; eauto|discriminate].
+  destruct c; cbn; intros H; [inversion H; subst; auto|eapply run_changes_docs; eauto| |discriminate].
+  destruct ((h <=? 0) || (h <? ht)); [discriminate|]. inversion H; subst; auto.
 Qed.
 
 Definition good (s : state) : Prop := perms_ok s /\ docs_ok (params s).
@@ -527,8 +529,8 @@ Proof.
   destruct (find_com s (p_com p)) as [c|] eqn:Ec; [|discriminate].
   pose proof (has_perms_no_panic (params s) (c_perms c) (p_content p) (Hp c (find_com_in _ _ _ Ec)) Hd) as Hx.
   destruct (has_perms (c_perms c) (params s) (p_content p)) as [[|]|]; [|discriminate|congruence].
-  destruct (validate_pub sls (params s) (p_content p)) eqn:Ev; cbn; [|discriminate].
-  destruct (validated_handler_ok _ _ _ Ev) as (ps' & ->). discriminate.
+  destruct (validate_pub sls (height s) (params s) (p_content p)) eqn:Ev; cbn; [|discriminate].
+  destruct (validated_handler_ok _ _ _ _ Ev) as (ps' & ->). discriminate.
 Qed.
 
 Lemma attempt_enact_frame sls s p s0 oc : attempt_enact sls s p = Ok s0 oc ->
@@ -538,7 +540,7 @@ Lemma attempt_enact_frame sls s p s0 oc : attempt_enact sls s p = Ok s0 oc ->
   (oc <> Passed -> params s0 = params s).
 Proof.
   intros H. destruct (attempt_enact_spec _ _ _ _ _ H) as [[-> (c & ps & _ & _ & _ & Hr & ->)]|[-> ->]].
-  - destruct (run_handler_docs _ _ _ _ _ Hr) as [Hl Hd]. cbn. repeat split; auto. congruence.
+  - destruct (run_handler_docs _ _ _ _ _ _ Hr) as [Hl Hd]. cbn. repeat split; auto. congruence.
   - repeat split; auto.
 Qed.
 
@@ -649,7 +651,7 @@ Qed.
 Theorem begin_block_no_panic sls s t : good s -> step sls s (OBegin t) <> Panic.
 Proof.
   intros Hg. cbn. destruct (t <? now s); [discriminate|].
-  set (s0 := mkState _ _ _ _ _ _ _ t).
+  set (s0 := mkState _ _ _ _ _ _ _ t _ _).
   assert (Hg0 : good s0) by (apply (good_frame s s0); auto).
   pose proof (process_all_no_panic sls (props s0) s0 Hg0) as H.
   pose proof (process_all_not_err sls (props s0) s0) as H'. unfold process_proposals.
@@ -733,13 +735,28 @@ Theorem begin_block_events sls s t s' evs :
   step sls s (OBegin t) = Ok s' (OutClosed evs) ->
   forall pid oc, In (pid, oc) evs ->
     exists p, In p (props s) /\ p_id p = pid /\
-      ev_ok (mkState (params s) (coms s) (props s) (votes s) (next_id s) (bals s) (supply s) t) p oc.
+      ev_ok (mkState (params s) (coms s) (props s) (votes s) (next_id s) (bals s) (supply s) t (height s + 1) (plan s)) p oc.
 Proof.
   intros Hnd H pid oc Hin. cbn in H. destruct (t <? now s); [discriminate|].
   unfold process_proposals in H. cbn [props] in H.
-  set (s0 := mkState _ _ _ _ _ _ _ t) in *.
+  set (s0 := mkState _ _ _ _ _ _ _ t _ _) in *.
   destruct (process_all sls s0 (props s)) as [s1 e1| |] eqn:E; try discriminate.
   inversion H; subst s' evs.
   eapply (process_all_events sls s0 (props s) s0 s1 e1 E); auto.
   unfold same_frame; auto.
+Qed.
+
+(* a stored proposal whose handler would fail NOW (the state moved under it, or
+   its upgrade plan went stale) is found by the dry run: enactment answers
+   Invalid and leaves the state untouched, whatever the permissions say *)
+Lemma failing_handler_invalid sls s p c :
+  find_com s (p_com p) = Some c ->
+  has_perms (c_perms c) (params s) (p_content p) <> None ->
+  (forall ps, run_handler sls (height s) (params s) (p_content p) <> Ok ps tt) ->
+  attempt_enact sls s p = Ok s Invalid.
+Proof.
+  intros Hc Hp Hf. unfold attempt_enact. rewrite Hc.
+  destruct (has_perms (c_perms c) (params s) (p_content p)) as [[|]|]; [|reflexivity|congruence].
+  destruct (validate_pub sls (height s) (params s) (p_content p)) eqn:Ev; [|reflexivity].
+  destruct (validated_handler_ok _ _ _ _ Ev) as (ps & Hps). exfalso. exact (Hf ps Hps).
 Qed.
